@@ -215,7 +215,7 @@ def execute(sc, only_first=True):
     reloads0 = _RELOAD['n']
     # the kernel bounds shim turns a write past the state buffers into an exception (class
     # call-failed) instead of heap corruption that would take the worker process down
-    with InitialSize(sc.get('initial_size', 10000)), KernelShim():
+    with InitialSize(sc.get('initial_size', 10000)), KernelShim() as shim:
         cx = api.Context(rng_of(sc['world_seed']))
         for k, (tname, oseed) in enumerate(sc['ops']):
             r = rng_of(oseed)
@@ -342,9 +342,11 @@ def execute(sc, only_first=True):
         # ---- 3. isolated replay of every call from its pre-call copies
         if not viol:
             reset_module_state()
+            shim.reinstall()
             for (k, call, forms, pre, dres, desc) in records:
                 if sc.get('cold_replay'):
                     reset_module_state()
+                    shim.reinstall()
                 try:
                     a3, k3 = _materialise_args(call, *copy.deepcopy(pre), forms)
                     res3 = call.fn(*a3, **k3)
